@@ -483,6 +483,16 @@ impl FailSafe {
                 .intersects(NocFlags::ADD_NOC_RECVD | NocFlags::UPDATE_NOC_RECVD)
     }
 
+    /// Whether the fabric with index `fab_idx` was added by an `AddNOC` under the current
+    /// fail-safe context, i.e. it is not committed yet and has no stored record of its own.
+    pub fn is_adding_fabric(&self, fab_idx: NonZeroU8) -> bool {
+        let State::Armed(ctx) = &self.state else {
+            return false;
+        };
+
+        ctx.fab_idx == fab_idx.get() && ctx.flags.contains(NocFlags::ADD_NOC_RECVD)
+    }
+
     pub fn check_armed(&self, session_mode: &SessionMode) -> Result<(), Error> {
         self.check_state(
             session_mode,
